@@ -103,6 +103,8 @@ package simplify
 //@   ensures same(result, mls)
 //@ func polygon(s, p)
 //@   callpre runSimplify: arg2 == true
+//@   callpre lineString: false
+//@   callpre multiLineString: false
 //@   requires s != nil
 //@   ensures result.ref == p.ref && result.off == p.off && len(result) <= len(p) && (len(p) >= 1 ==> len(result) >= 1)
 //@   loop 1: invariant -1 <= rangeindex && rangeindex < len(p) && 0 <= count && count <= rangeindex + 1 && (rangeindex >= 0 ==> count >= 1)
